@@ -126,13 +126,6 @@ func (x *Engine) inline(fr *Frame, st *State, callee *ssa.Function, args []Val, 
 		x.havocAll(st)
 		return resultVal(sig, x.freshResults(st, sig, "dr"))
 	}
-	for _, l := range x.newFrame(callee, nil).loops {
-		_ = l
-		if fs := x.db.Funcs[specKeyOf(callee)]; fs == nil || fs.Loops == nil {
-			x.notes = append(x.notes, "inlined callee with a loop and no invariant: "+callee.String())
-		}
-		break
-	}
 	x.inlined[callee.String()] = true
 	nf := x.newFrame(callee, fr)
 	nf.spec = x.db.Funcs[specKeyOf(callee)]
@@ -162,6 +155,9 @@ func (x *Engine) inline(fr *Frame, st *State, callee *ssa.Function, args []Val, 
 		budget := 600
 		x.runUnrolled(nf, callee.Blocks[0], nil, st.clone(), &budget)
 	} else {
+		if len(nf.loops) > 0 && (nf.spec == nil || nf.spec.Loops == nil) {
+			x.notes = append(x.notes, "inlined callee with a loop and no invariant: "+callee.String())
+		}
 		x.runBody(nf, callee.Blocks[0], st)
 	}
 	x.finishFrame(nf)
@@ -317,12 +313,14 @@ func (x *Engine) applyContract(fr *Frame, st *State, fs *FuncSpec, sig *types.Si
 		x.assumedC[key] = true
 	}
 	if fs.Pure {
-		recv := args[0]
-		rest := args[1:]
+		var recv Val
+		var rest []Val
 		if sig.Recv() == nil && !fs.IsIface {
 			// pure free function: receiver slot is a dummy
 			recv = Val{T: "0", Typ: types.Typ[types.Int]}
 			rest = args
+		} else {
+			recv, rest = args[0], args[1:]
 		}
 		r := x.pureApp(st, key, sig, recv, rest)
 		r.T = x.name("pv", x.sortOf(r.Typ), r.T)
@@ -350,7 +348,10 @@ func (x *Engine) applyContract(fr *Frame, st *State, fs *FuncSpec, sig *types.Si
 		if lab == "" {
 			lab = fmt.Sprint(i + 1)
 		}
-		x.oblige(st, "call["+shortKey(key)+"@"+pos+"].requires", lab, g, c.Text, pos)
+		if i == 0 {
+			x.ordinals["call:"+key]++
+		}
+		x.oblige(st, fmt.Sprintf("call[%s#%d].requires", shortKey(key), x.ordinals["call:"+key]), lab, g, c.Text+" (call at "+pos+")", pos)
 	}
 	pre := st.clone()
 	if !fs.HasMod {
